@@ -571,8 +571,10 @@ class Parser:
         if ch == "t":
             return "\t", index
         if ch == "u":
+            # Any code point can be written as an escape, control characters
+            # included. Only raw control characters are invalid.
             codepoint, index = self._decode_hex_char(value, index, token)
-            return self._string_from_codepoint(codepoint, token), index
+            return chr(codepoint), index
 
         raise JSONPathSyntaxError(
             f"unknown escape sequence at index {token.index + index - 1}",
